@@ -8,7 +8,8 @@
 (* >= EmitMin are exported.                                                   *)
 EXTENDS RecordReader, TLC, Json
 
-CONSTANTS MaxLen, EmitMin, Sel      \* Sel: "base", "extra" (the entries only the rich menu has) or "all"
+CONSTANTS MaxLen, EmitMin, Sel      \* Sel: "base", "extra" (the entries only the rich menu has), "all", "long" (inputs built
+                                    \* from blocks; MaxLen then counts blocks) or the name of one entry
 
 VARIABLES input, ment, phase
 vars == <<input, ment, phase>>
@@ -25,12 +26,14 @@ Start ==
   /\ (EmitMin = 0 => PrintT(ToJson(CaseOf(input, ment))))
   /\ UNCHANGED <<input, ment>>
 
+\* phase - 1 = number of symbols (bytes, or blocks for the entries of LongMenu) appended so far
+Blk(m, ch) == IF m \in LongMenu THEN ch ELSE <<ch>>
 Extend ==
-  /\ phase = 1 /\ Len(input) < MaxLen
+  /\ phase >= 1 /\ phase - 1 < MaxLen /\ phase' = phase + 1
   /\ \E ch \in ment.alpha :
-       /\ input' = Append(input, ch)
-       /\ (Len(input') >= EmitMin => PrintT(ToJson(CaseOf(input', ment))))
-  /\ UNCHANGED <<ment, phase>>
+       /\ input' = input \o Blk(ment, ch)
+       /\ (phase >= EmitMin => PrintT(ToJson(CaseOf(input', ment))))
+  /\ UNCHANGED <<ment>>
 
 Next == Start \/ Extend
 Spec == Init /\ [][Next]_vars
